@@ -152,6 +152,7 @@ func (f *Frame) instr(in ssa.Instruction) {
 		f.define(in, Val{S: f.newObjID(), Sort: "Ptr", GT: in.Type()})
 	case *ssa.Call:
 		f.siteObligs(in)
+		f.siteAppendObligs(in)
 		r := f.call(in.Common(), in)
 		if in.Type() != nil {
 			if tup, ok := in.Type().(*types.Tuple); ok && tup.Len() == 0 {
@@ -898,4 +899,56 @@ func trySiteGoal(env *Env, e Expr) (goal string, ok bool) {
 		}
 	}()
 	return env.trBool(e), true
+}
+
+// siteAppendObligs emits `site LABEL: append requires EXPR` obligations at every append (optionally
+// `append to NAME`). In EXPR, each(P) is the conjunction of P over every appended element (bound to
+// `elem`, with `prev` bound to the element appended just before it in the same call, or to the last element
+// of the destination for the first one); `dest` is the destination slice before the append.
+func (f *Frame) siteAppendObligs(in *ssa.Call) {
+	g := f.g
+	if !f.top || g.FC == nil || len(g.FC.Sites) == 0 {
+		return
+	}
+	b, ok := in.Call.Value.(*ssa.Builtin)
+	if !ok || b.Name() != "append" {
+		return
+	}
+	for _, sc := range g.FC.Sites {
+		if !strings.HasPrefix(sc.Pattern, "append") || sc.E == nil {
+			continue
+		}
+		if rest := strings.TrimSpace(strings.TrimPrefix(sc.Pattern, "append")); strings.HasPrefix(rest, "to ") {
+			want := strings.TrimSpace(rest[3:])
+			if valuePath(in.Call.Args[0]) != want && valuePath(in.Call.Args[0]) != "phi:"+want {
+				continue
+			}
+		}
+		env := f.envAt(in.Block(), f.cur, nil)
+		env.upTo = f.instrIdx[in]
+		env.bind["dest"] = f.val(in.Call.Args[0])
+		// opaque: the appended operand is the result of a call whose contract says nothing about its contents
+		opaque := "false"
+		if c, isCall := in.Call.Args[1].(*ssa.Call); isCall {
+			if callee := c.Call.StaticCallee(); callee == nil || g.P.ContractFor(callee) == nil {
+				opaque = "true"
+				nm := "a dynamic call"
+				if callee != nil {
+					nm = fullName(callee)
+				}
+				g.Assumptions["site "+sc.Label+": the contents of the value appended at "+f.pos(in.Pos())+" come from "+nm+" and are not constrained (clauses guarded by !opaque do not cover it)"] = true
+			}
+		}
+		env.bind["opaque"] = g.boolVal(opaque)
+		env.appendArg = in.Call.Args[1]
+		env.appendFrame = f
+		goal, inScope := trySiteGoal(env, sc.E)
+		if !inScope {
+			continue
+		}
+		g.siteSeq[sc.Label]++
+		g.addOblig(&Oblig{Name: f.obName("site", &Clause{Label: fmt.Sprintf("%s.%d", sc.Label, g.siteSeq[sc.Label])}, 0), Kind: "site",
+			Goal: implies(f.curReach, goal), Pos: f.pos(in.Pos()), Text: sc.Pattern + " requires " + sc.Text, ClauseProps: sc.Props})
+		g.siteHits[sc.Label]++
+	}
 }
